@@ -207,6 +207,7 @@ func profileFor(prop string) Profile {
 	case "C05":
 		p.Probe = "memcheck"
 		p.Reload, p.AdminRelease = true, true
+		p.Ops = [2]int{6, 18}
 	case "C06":
 		p.Probe = "c06"
 		p.Ranges = true
@@ -214,6 +215,10 @@ func profileFor(prop string) Profile {
 	case "C11":
 		p.Probe = "c11"
 		p.AdminRelease = true
+	case "C08":
+		p.Ranges = true
+		p.Ops = [2]int{8, 22}
+		p.Kinds = []string{"sts", "tapp", "bare", "dp"}
 	case "C19":
 		p.Faults, p.Crash, p.Relist, p.Reload, p.AdminRelease, p.AdminList, p.PoolAPI, p.Reserve, p.Ranges, p.Collect = true, false, true, true, true, true, true, true, true, true
 		p.Cloud = 2
@@ -279,6 +284,11 @@ type World struct {
 	probeSeq         int
 	probeFaultsSaved bool
 	lostReplies      int
+	plan             *faultPlan
+	planFired        bool
+	recovering       bool
+	schedBefore      map[string][]string
+	schedTouched     map[string]bool
 }
 
 func (w *World) fail(oracle, key, format string, a ...interface{}) {
@@ -293,7 +303,7 @@ func (w *World) fail(oracle, key, format string, a ...interface{}) {
 
 func newWorld(s *core.Sim, prop, tier string) *World {
 	w := &World{S: s, C: s.C, prop: prop, tier: tier, prof: profileFor(prop), pods: map[string]*PodInfo{}, podByUID: map[string]*PodInfo{},
-		gone: map[string]bool{}, busy: map[string]*core.Task{}, schedBusy: map[string]*core.Task{}, cloud: map[string]string{}, memdump: map[string][]memEntry{}, unsched: map[string]bool{}, M: newModel()}
+		gone: map[string]bool{}, busy: map[string]*core.Task{}, schedBusy: map[string]*core.Task{}, cloud: map[string]string{}, memdump: map[string][]memEntry{}, unsched: map[string]bool{}, M: newModel(), schedBefore: map[string][]string{}, schedTouched: map[string]bool{}}
 	w.K = simkube.New(s)
 	w.K.OnMutate = w.onMutate
 	s.OnPanic = w.onPanic
@@ -447,7 +457,28 @@ func (w *World) onPodMutate(m *simkube.Mutation) {
 	}
 }
 
+func (w *World) noteSchedTouched(m *simkube.Mutation) {
+	if !w.armed("C08") {
+		return
+	}
+	keys := map[string]bool{}
+	if m.Old != nil {
+		keys[decodeFip(m.Old).Key] = true
+	}
+	if m.New != nil {
+		keys[decodeFip(m.New).Key] = true
+	}
+	for _, uid := range sortedKeys(w.schedBusy) {
+		t := w.schedBusy[uid]
+		p := w.podByUID[uid]
+		if p != nil && keys[p.Key] && m.By != t {
+			w.schedTouched[uid] = true
+		}
+	}
+}
+
 func (w *World) onFipMutate(m *simkube.Mutation) {
+	w.noteSchedTouched(m)
 	if w.probe != nil && w.probe.entry != nil {
 		ip, key := "", ""
 		if m.Old != nil {
@@ -515,6 +546,9 @@ func (w *World) Handle(t *core.Task, r *core.Req) core.Resp {
 			w.K.Calls++
 			if f := w.apiFault(t, r); f != nil {
 				return *f
+			}
+			if resp, done := w.enumPoint(t, r); done {
+				return resp
 			}
 		}
 		resp := w.K.Handle(t, r)
@@ -688,6 +722,7 @@ func (w *World) onFiltered(fr *filterReport) string {
 
 func (w *World) onBound(br *bindReport) {
 	if br.Err != "" {
+		w.oracleC08Failed(br)
 		w.S.Stat("bind.err")
 		w.S.Stat("binderr." + classify(br.Err))
 		if strings.Contains(br.Err, "waiting for delete event") {
@@ -1084,4 +1119,56 @@ func panicSite(msg string) string {
 		}
 	}
 	return "unknown"
+}
+
+// enumMatches selects the API calls that are injection points of the fault enumeration.
+func (w *World) enumMatches(t *core.Task, r *core.Req) bool {
+	if t.Tag == "init" || t.Tag == "probe" || t.Tag == "dump" || !w.faultsOn {
+		return false
+	}
+	switch w.prop {
+	case "C05":
+		return true
+	case "C08":
+		return r.Op == "api.create" && len(r.A) > 0 && r.A[0] == "floatingips"
+	}
+	return false
+}
+
+// enumPoint counts injection points and fires the planned fault at the k-th one.
+func (w *World) enumPoint(t *core.Task, r *core.Req) (core.Resp, bool) {
+	if !w.armed("C05", "C08") || !w.enumMatches(t, r) {
+		return core.Resp{}, false
+	}
+	w.S.Stats["enum.points"]++
+	if w.plan == nil || w.planFired || w.S.Stats["enum.points"] != w.plan.k {
+		return core.Resp{}, false
+	}
+	w.planFired = true
+	switch w.plan.mode {
+	case 1:
+		w.S.Stat("fault.api.err")
+		w.S.Sig("F:err@" + r.Op)
+		return core.Resp{Code: simkube.CodeInternal, Msg: "simulated internal error (enumerated fault)"}, true
+	case 2:
+		w.S.Sig("F:crash-before@" + r.Op)
+		w.crashForRecovery()
+		return core.Resp{Code: core.CodeDead}, true
+	case 3:
+		resp := w.K.Handle(t, r)
+		w.S.Sig("F:crash-after@" + r.Op)
+		w.crashForRecovery()
+		return resp, true
+	}
+	return core.Resp{}, false
+}
+
+// crashForRecovery kills galaxy-ipam; the rest of the run is: restart, drain, checks.
+func (w *World) crashForRecovery() {
+	w.opCrash()
+	w.opsLeft = 0
+	w.wantProbe = ""
+	w.probe = nil
+	w.recovering = true
+	w.faultsOn = false
 }
